@@ -52,7 +52,7 @@ class C06(OptEngineBase):
     PROBES = [
         "fixed_isolated", "all_fixed", "none_fixed", "fixed_landmark", "unfix_between_calls",
         "first_vertex_not_min_id", "nan_outcome", "diverged_outcome", "singular_natural", "solver_raise_fired",
-        "i3_checked", "i3_skipped_illcond", "stdout_fail_fired", "multi_component", "singular_raised_as_error",
+        "i3_checked", "i3_skipped_illcond", "stdout_fail_fired", "multi_component", "singular_raised_as_error", "i3_trajectory_step",
     ]
 
     # ------------------------------------------------------------------ generate
@@ -105,6 +105,8 @@ class C06(OptEngineBase):
                     "verbose": rng.random() < 0.4,
                     "stdout": {"kind": rng.choice(["memory", "memory", "none", "slow"])},
                 })
+                if not single and rng.random() < 0.35:
+                    ops[-1]["shadow"] = True
                 if rng.random() < 0.08:
                     ops[-1].update({"use_defaults": True, "tol": 1e-4, "max_iter": 20, "fix_first_pose": True, "verbose": True})
         case = {"config": config, "workload": workload, "meta": meta, "ops": ops, "faults": []}
@@ -169,6 +171,9 @@ class C06(OptEngineBase):
                             ref = reference_reduced_step(g, model)
                         except Exception as e:  # reference could not be formed (e.g. user edge on degenerate input)
                             ref = {"ok": False, "why": "reference-raised:" + type(e).__name__}
+                    shadow = None
+                    if not dry and op["max_iter"] > 1 and op.get("shadow") and all_finite(before):
+                        shadow = graphs.clone(g)  # visible state only; same fixed flags
                     raised = None
                     result = None
                     try:
@@ -287,6 +292,51 @@ class C06(OptEngineBase):
                             nontrivial_opt = True
                         elif ref.get("why") == "ill-conditioned":
                             res.probe("i3_skipped_illcond")
+                    # I3 along the trajectory: a shadow clone is advanced one update at a time in a benign
+                    # environment and every one of its steps is compared with the independent reduced step
+                    if shadow is not None and raised is None and not fired_kinds and not res.violations:
+                        n_steps = min(int(result.num_iterations or 0), 6)
+                        s_types = [graphs.type_name(v.pose) for v in shadow._vertices]
+                        for j in range(n_steps):
+                            sref = None
+                            try:
+                                sref = reference_reduced_step(shadow, model)
+                            except Exception:  # noqa
+                                break
+                            saved_op, saved_kind = w.log.op_index, w.clock.kind
+                            w.log.op_index = -5000 - i
+                            w.clock.kind = "steady"
+                            w.set_stdout({"kind": "memory"})
+                            try:
+                                shadow.optimize(tol=0.0, max_iter=1, fix_first_pose=op["fix_first_pose"], verbose=False)
+                            except Exception:  # noqa -- the shadow is only an observer
+                                sref = None
+                            finally:
+                                w.log.op_index, w.clock.kind = saved_op, saved_kind
+                            if sref is None or not sref.get("ok"):
+                                break
+                            s_after = poses_snapshot(shadow)
+                            if not all_finite(s_after):
+                                break
+                            res.probe("i3_trajectory_step")
+                            tol = 1000 * EPS * sref["cond"]
+                            scale = sref["dx_norm"] + sref["x_norm"]
+                            bad = False
+                            for k, v in enumerate(shadow._vertices):
+                                if k not in sref["new"]:
+                                    continue
+                                res.n_checks += 1
+                                ok, worst = graphs.pose_arrays_close(s_types[k], sref["new"][k], s_after[k], 0.0,
+                                                                     abs_floor=tol * max(1.0, scale) + 1e-12)
+                                if not ok:
+                                    res.violate("C06:reduced-step:trajectory",
+                                                "free vertex id %d (%s): update %d of the trajectory started at op %d gave %s, the "
+                                                "reduced Gauss-Newton step gives %s (cond(H_ff)=%.3g)"
+                                                % (v.id, s_types[k], j + 1, i, s_after[k].tolist(), sref["new"][k].tolist(), sref["cond"]))
+                                    bad = True
+                                    break
+                            if bad:
+                                break
                 else:  # pragma: no cover
                     raise ValueError("unknown op %r" % kind)
             if dry:
